@@ -748,6 +748,8 @@ impl<'a> VariableParserExtension<'a> {
             guard_cap(extract_capacity(pcx, &val)? as i64) as usize
         };
         let head = val.assume_field_as_scalar_number("head")? as usize;
+        // a ring buffer cannot hold more than its capacity (the memory may be uninitialized)
+        let len = len.min(cap);
 
         let wrapped_start = if cap == 0 { 0 } else { head % cap };
         let head_len = cap - wrapped_start;
@@ -771,7 +773,7 @@ impl<'a> VariableParserExtension<'a> {
             .enumerate()
             .filter_map(|(i, real_idx)| {
                 let offset = real_idx * el_type_size;
-                let el_raw_data = &data[offset..(real_idx + 1) * el_type_size];
+                let el_raw_data = data.get(offset..(real_idx + 1) * el_type_size)?;
                 let el_data = ObjectBinaryRepr {
                     raw_data: data.slice_ref(el_raw_data),
                     address: Some(data_ptr + offset),
